@@ -48,21 +48,21 @@ theorem InvL.transfer {g g' : Ghost} {s s' : KState ℚ σ} (hi : InvL g s)
     (hsz : s.events.size ≤ s'.events.size)
     (hp : ∀ p, s'.proc? p = s.proc? p)
     (ho : ∀ p, (s'.ev p).out = none → (s.ev p).out = none)
-    (hrun : ∀ p, g.run = some p → g'.run = some p)
+    (hrun : ∀ p, g.run = some p → g'.run = some p) (hlv : g'.lv = true → g.lv = true)
     (hN : ∀ e, e < s.events.size → (s.ev e).cbs = none → (s'.ev e).cbs = none)
     (hL : ∀ e L p, (s.ev e).cbs = some L → Cb.resume p ∈ L → g'.run ≠ some p →
       (s'.ev e).cbs = none ∨ ∃ L', (s'.ev e).cbs = some L' ∧ Cb.resume p ∈ L') : InvL g' s' := by
   constructor
-  intro p pr hpp hout hr
+  intro hl p pr hpp hout hr
   rw [hp] at hpp
-  obtain ⟨t, h1, h2, h3⟩ := hi.live p pr hpp (ho p hout) (fun h => hr (hrun p h))
+  obtain ⟨t, h1, h2, h3⟩ := hi.live (hlv hl) p pr hpp (ho p hout) (fun h => hr (hrun p h))
   refine ⟨t, h1, Nat.lt_of_lt_of_le h2 hsz, ?_⟩
   rcases h3 with h3 | ⟨L, h3, h4⟩
   · exact Or.inl (hN t h2 h3)
   · exact hL t L p h3 h4 hr
 
 theorem InvL.congr {g : Ghost} {s s' : KState ℚ σ} (hi : InvL g s) (h : SameC s s') : InvL g s' := by
-  refine hi.transfer (by rw [h.size]) h.proc (fun p hp => by rw [← h.out]; exact hp) (fun _ h => h)
+  refine hi.transfer (by rw [h.size]) h.proc (fun p hp => by rw [← h.out]; exact hp) (fun _ h => h) (fun h => h)
     (fun e _ hc => by rw [h.cbs]; exact hc) ?_
   intro e L p hL hm _
   exact Or.inr ⟨L, by rw [h.cbs]; exact hL, hm⟩
@@ -149,7 +149,7 @@ theorem Inv.setOut {g : Ghost} {s : KState ℚ σ} (hi : Inv g s) (e : EvId) (o 
       · unfold isCond at h
         rcases hkind with ⟨r, hr⟩ | ⟨r, hr⟩ <;> rw [hr] at h <;> exact absurd h (by simp)
     · exact ho
-  · refine hi.l.transfer (by unfold KState.setOut; rw [size_setEv]) (fun _ => rfl) ?_ (fun _ h => h) (fun e' _ hc => by rw [hcb]; exact hc) ?_
+  · refine hi.l.transfer (by unfold KState.setOut; rw [size_setEv]) (fun _ => rfl) ?_ (fun _ h => h) (fun h => h) (fun e' _ hc => by rw [hcb]; exact hc) ?_
     · intro p hp
       rw [out_setOut] at hp
       split at hp
@@ -186,7 +186,7 @@ theorem Inv.addCb {g : Ghost} {s : KState ℚ σ} (hi : Inv g s) (e : EvId) (cb 
   have ho : ∀ e', ((s.addCb e cb).ev e').out = (s.ev e').out := fun e' => out_setEv s e e' _ rfl
   refine ⟨hi.c.addCb e cb h1 h2 h3, hi.q.keep (fun _ => rfl) (fun _ => rfl) (fun e' h _ => ⟨hk e', by rw [ho]; exact h⟩), ?_⟩
   refine hi.l.transfer (by unfold KState.addCb; rw [size_setEv]) (fun _ => rfl) (fun p hp => by rw [← ho]; exact hp)
-    (fun _ h => h) ?_ ?_
+    (fun _ h => h) (fun h => h) ?_ ?_
   · intro e' _ hc
     rw [cbs_addCb]; split
     · rename_i h; subst h; rw [hc]; rfl
@@ -204,7 +204,7 @@ theorem Inv.eraseCb_other {g : Ghost} {s : KState ℚ σ} (hi : Inv g s) (e : Ev
   have ho : ∀ e', ((s.eraseCb e cb).ev e').out = (s.ev e').out := fun e' => out_setEv s e e' _ rfl
   refine ⟨hi.c.eraseCb_other e cb h1, hi.q.keep (fun _ => rfl) (fun _ => rfl) (fun e' h _ => ⟨hk e', by rw [ho]; exact h⟩), ?_⟩
   refine hi.l.transfer (by unfold KState.eraseCb; rw [size_setEv]) (fun _ => rfl) (fun p hp => by rw [← ho]; exact hp)
-    (fun _ h => h) ?_ ?_
+    (fun _ h => h) (fun h => h) ?_ ?_
   · intro e' _ hc
     rw [cbs_eraseCb]; split
     · rename_i h; subst h; rw [hc]; rfl
@@ -234,7 +234,7 @@ theorem Inv.push {g : Ghost} {s s' : KState ℚ σ} (hi : Inv g s) (rec : EvRec 
       apply lt_of_kind
       rcases hk with ⟨r, hr⟩ | ⟨r, hr⟩ <;> rw [hr] <;> simp
     rw [hold e hlt]; exact ⟨rfl, ho⟩
-  · refine hi.l.transfer (by omega) hp ?_ (fun _ h => h) (fun e he h => by rw [hold e he]; exact h) ?_
+  · refine hi.l.transfer (by omega) hp ?_ (fun _ h => h) (fun h => h) (fun e he h => by rw [hold e he]; exact h) ?_
     · intro p hpo
       by_cases h : p < s.events.size
       · rw [hold p h] at hpo; exact hpo
